@@ -189,6 +189,7 @@ pub(crate) mod verif_wrap {
     /// key/ad/plaintext forwarded untouched, output = what the primitive wrote, pt+16 long.
     #[kani::proof]
     #[kani::stub(orion::hazardous::aead::chacha20poly1305::seal, seal_rec)]
+    #[kani::stub(crate::verif_common::native, crate::verif_common::native_false)]
     #[kani::unwind(34)]
     pub fn c19_seal_noise_plumbing() {
         let key: [u8; 32] = kani::any();
@@ -200,6 +201,15 @@ pub(crate) mod verif_wrap {
         let pt = &buf[..ptlen];
         let ad = &buf[12..12 + adlen];
         let out = chapoly_encrypt_noise(&key, ctr, ad, pt);
+        if crate::verif_common::native() {
+            // native replay twin (cargo kani playback: stubs are not applied): compare with the real primitive
+            let mut n = [0u8; 12];
+            n[4..].copy_from_slice(&ctr.to_le_bytes());
+            let mut want = vec![0u8; ptlen + 16];
+            chapoly::seal(&chapoly::SecretKey::from_slice(&key).unwrap(), &chapoly::Nonce::from_slice(&n).unwrap(), pt, Some(ad), &mut want).unwrap();
+            assert!(out == want, "[C19,C06] native: chapoly_encrypt_noise == RFC 8439 seal under nonce 00000000||LE64(counter)");
+            return;
+        }
         let c = unsafe { AEAD };
         assert!(c.n == 1, "[C19,C07] exactly one seal per call");
         assert!(c.key == key, "[C19] key forwarded");
@@ -221,6 +231,7 @@ pub(crate) mod verif_wrap {
     /// never panics, Err from the primitive or a too-short input is Err, Ok returns its output.
     #[kani::proof]
     #[kani::stub(orion::hazardous::aead::chacha20poly1305::open, open_rec)]
+    #[kani::stub(crate::verif_common::native, crate::verif_common::native_false)]
     #[kani::unwind(34)]
     pub fn c19_open_noise_plumbing() {
         let key: [u8; 32] = kani::any();
@@ -232,6 +243,24 @@ pub(crate) mod verif_wrap {
         kani::assume(ctlen <= L && adlen <= 12);
         let ct = &buf[..ctlen];
         let ad = &adb[..adlen];
+        if crate::verif_common::native() {
+            // native replay twin: a ciphertext sealed by the real primitive under 00000000||LE64(counter) must open,
+            // and the arbitrary input must give the primitive's own verdict (never a panic)
+            let mut n = [0u8; 12];
+            n[4..].copy_from_slice(&ctr.to_le_bytes());
+            let k = chapoly::SecretKey::from_slice(&key).unwrap();
+            let nn = chapoly::Nonce::from_slice(&n).unwrap();
+            let pt = &buf[..if ctlen >= 16 { ctlen - 16 } else { 0 }];
+            let mut sealed = vec![0u8; pt.len() + 16];
+            chapoly::seal(&k, &nn, pt, Some(ad), &mut sealed).unwrap();
+            let r = chapoly_decrypt_noise(&key, ctr, ad, &sealed);
+            assert!(r.is_ok() && r.unwrap() == pt, "[C19,C06] native: chapoly_decrypt_noise opens what RFC 8439 seal produced under nonce 00000000||LE64(counter)");
+            let r2 = chapoly_decrypt_noise(&key, ctr, ad, ct);
+            let mut dst = vec![0u8; if ctlen >= 16 { ctlen - 16 } else { 0 }];
+            let want_ok = ctlen >= 16 && chapoly::open(&k, &nn, ct, Some(ad), &mut dst).is_ok();
+            assert!(r2.is_ok() == want_ok, "[C19,C09] native: verdict on arbitrary input equals the primitive's; short input is an error");
+            return;
+        }
         let r = chapoly_decrypt_noise(&key, ctr, ad, ct);
         let c = unsafe { AEAD };
         if ctlen < 16 {
@@ -267,6 +296,7 @@ pub(crate) mod verif_wrap {
     #[kani::proof]
     #[kani::stub(orion::hazardous::aead::chacha20poly1305::open, open_rec)]
     #[kani::stub(orion::hazardous::aead::chacha20poly1305::seal, seal_rec)]
+    #[kani::stub(crate::verif_common::native, crate::verif_common::native_false)]
     #[kani::unwind(34)]
     pub fn c19_ietf_plumbing() {
         let key: [u8; 32] = kani::any();
@@ -275,6 +305,22 @@ pub(crate) mod verif_wrap {
         let adb: [u8; 4] = kani::any();
         let n: usize = kani::any();
         kani::assume(n <= L);
+        if crate::verif_common::native() {
+            // native replay twin: both directions against the real primitive, for this key/nonce/input
+            let k = chapoly::SecretKey::from_slice(&key).unwrap();
+            let nn = chapoly::Nonce::from_slice(&nonce).unwrap();
+            let m = if n <= 8 { n } else { 8 };
+            let mut want = vec![0u8; m + 16];
+            chapoly::seal(&k, &nn, &buf[..m], Some(&adb), &mut want).unwrap();
+            assert!(chapoly_encrypt_ietf(&key, &nonce, &buf[..m], &adb) == want, "[C19,C15] native: chapoly_encrypt_ietf == RFC 8439 seal");
+            let r = chapoly_decrypt_ietf(&key, &nonce, &buf[..n], &adb);
+            let mut dst = vec![0u8; if n >= 16 { n - 16 } else { 0 }];
+            let want_ok = n >= 16 && chapoly::open(&k, &nn, &buf[..n], Some(&adb), &mut dst).is_ok();
+            assert!(r.is_ok() == want_ok, "[C19,C09,C15] native: chapoly_decrypt_ietf accepts exactly what RFC 8439 open accepts; short input is an error");
+            let r3 = chapoly_decrypt_ietf(&key, &nonce, &want, &adb);
+            assert!(r3.is_ok() && r3.unwrap() == &buf[..m], "[C19,C15] native: open inverts seal");
+            return;
+        }
         if kani::any() {
             kani::assume(n <= 8);
             let out = chapoly_encrypt_ietf(&key, &nonce, &buf[..n], &adb);
